@@ -212,7 +212,7 @@ func genC17(rt *rapid.T) *C17Case {
 		Secret:  str.Draw(rt, "secret"),
 		Secret2: str.Draw(rt, "secret2"),
 		User:    str.Draw(rt, "user"),
-		Realm:   rapid.SampledFrom([]string{"pion.ly", "", "sim.realm", "r:x"}).Draw(rt, "realm"),
+		Realm:   rapid.SampledFrom([]string{"pion.ly", "", "sim.realm", "r:x", "Pion.LY", "EXAMPLE.ORG", "ünï.example"}).Draw(rt, "realm"),
 	}
 	c.MethodSeed = uint8(rapid.IntRange(0, 8).Draw(rt, "methodSeed")) //nolint:gosec
 	c.DurationS = rapid.OneOf(
